@@ -52,6 +52,10 @@ pub struct Cfg {
     /// allow clear() on sparse replicas (C08): an Err is tolerated, the outcome is resolved by observation
     #[serde(default)]
     pub replica_clear: bool,
+    /// re-tag content/call violations of this run (C02 multi-crash histories: "later operations and
+    /// reopens again satisfy C01" is C02's own clause)
+    #[serde(default)]
+    pub retag_as: Option<String>,
 }
 
 impl Cfg {
@@ -68,6 +72,7 @@ impl Cfg {
             backend: crate::disk::Backend::Sim,
             no_snapshots: false,
             replica_clear: false,
+            retag_as: None,
         }
     }
 }
